@@ -243,6 +243,21 @@ class NPProxy(types.ModuleType):
             return SymNorm(x)
         return real_np.sqrt(x)
 
+    def round(self, a, decimals=0, out=None):
+        if isinstance(a, SymNorm):
+            a = a.materialize()
+        if isinstance(a, SymReal):
+            return core.sym_round(a, decimals)
+        if isinstance(a, real_np.ndarray) and a.dtype == object:
+            res = real_np.empty(a.shape, dtype=object)
+            for idx in real_np.ndindex(a.shape):
+                v = a[idx]
+                res[idx] = core.sym_round(v, decimals) if isinstance(v, SymReal) else round(v, decimals)
+            return res
+        return real_np.round(a, decimals)
+
+    around = round
+
     def log2(self, x):
         if isinstance(x, SymNorm):
             x = x.materialize()
